@@ -1,18 +1,33 @@
-//! C39 replay: `luafmt --write` under a file-size limit, on the REAL binary.
+//! C39 replay / bounded search: `luafmt --write` under injected write failures and crashes, on the REAL binary.
 //!
 //! The driver builds `luafmt` from the checkout named in Cargo.toml (`[package.metadata.c39] repo`, overridden by $C39_REPO),
-//! writes unformatted Lua files into a scratch directory and runs `luafmt --write` on them under `ulimit -f`:
-//!   sigxfsz   RLIMIT_FSIZE with the default action of SIGXFSZ: the kernel KILLS luafmt inside write(2) = a crash point
-//!   efbig     the same limit with SIGXFSZ ignored (`trap '' XFSZ` is inherited across exec): write(2) returns EFBIG = a write failure
-//!   zero      limit 0: the process dies on its first write, right after open(O_TRUNC)
-//!   two       two files, the first fits under the limit, the second does not (the run "over several files")
-//! After each run every target file must hold its complete ORIGINAL content or its complete FORMATTED content (what the same
-//! binary prints for the file without a limit). Anything else (empty, cut off) prints `FOUND ...` and the driver exits 1.
-//! The driver decides nothing about the proof; it shows the failed obligation C39.write.original-or-formatted-at-every-point
-//! on the running program.
+//! writes unformatted Lua files into a scratch directory and runs `luafmt --write` on them in a list of scenarios:
+//!   * RLIMIT_FSIZE (`ulimit -f N`, 512-byte blocks in sh) with the default action of SIGXFSZ: the kernel KILLS luafmt inside
+//!     write(2) = a crash point; with SIGXFSZ ignored (`trap '' XFSZ` is inherited across exec, as under Python parents such as
+//!     pre-commit): write(2) returns EFBIG = a write failure; limit 0: the first write fails;
+//!   * file sizes: tiny (fits under every limit used), small (formatted text below 8 KiB = the capacity of a BufWriter, above the
+//!     limit), big (far above the limit); one file and several mixed files in one run;
+//!   * a target with a second hard link, a target reached through a symlink, a target in a read-only directory,
+//!     a target that is a bind-mounted file on a nearly full tmpfs (`unshare -rm`; skipped with `NOT COVERED` when namespaces
+//!     are not permitted).
+//! After each run
+//!   (a) every watched name must hold its complete ORIGINAL content or its complete FORMATTED content (what the same binary prints
+//!       for the file without a limit): anything else (empty, cut off) is `FOUND ... left <what>`;
+//!   (b) a run after which some target does NOT hold its formatted content must have ended with a non-zero status (or a signal),
+//!       and, when it exited by itself, with a message on stderr: otherwise `FOUND ... not reported`.
+//! Any FOUND line => exit 1. The driver decides nothing about the proof; it is the bounded fallback when unit c39_write is undecided
+//! and the witness search for a failed obligation C39.write.original-or-formatted-at-every-point.
+use std::collections::HashMap;
 use std::fs;
+use std::os::unix::fs::PermissionsExt;
+use std::os::unix::process::ExitStatusExt;
 use std::path::{Path, PathBuf};
 use std::process::{Command, Stdio, exit};
+
+const TINY: usize = 5; // ~110 bytes formatted: fits under `ulimit -f 1` (512 bytes)
+const SMALL: usize = 250; // ~5 KiB formatted: below BufWriter's 8 KiB, above every limit used
+const BIG: usize = 2000; // ~43 KiB formatted
+const BIND: usize = 1500; // ~26 KiB -> ~32 KiB: the formatted text needs more tmpfs pages than the original
 
 fn repo_dir() -> PathBuf {
     if let Ok(r) = std::env::var("C39_REPO") {
@@ -20,8 +35,7 @@ fn repo_dir() -> PathBuf {
     }
     let manifest = fs::read_to_string(concat!(env!("CARGO_MANIFEST_DIR"), "/Cargo.toml")).expect("own Cargo.toml");
     for line in manifest.lines() {
-        let line = line.trim();
-        if let Some(rest) = line.strip_prefix("repo = \"") {
+        if let Some(rest) = line.trim().strip_prefix("repo = \"") {
             return PathBuf::from(rest.trim_end_matches('"'));
         }
     }
@@ -58,31 +72,139 @@ fn unformatted(n: usize) -> String {
     s
 }
 
-fn formatted_by(luafmt: &Path, file: &Path) -> Vec<u8> {
-    // no limit, result on stdout: the reference "complete formatted content"
-    let out = Command::new(luafmt).arg(file).stdin(Stdio::null()).output().expect("run luafmt");
-    assert!(out.status.success(), "luafmt <file> failed: {}", String::from_utf8_lossy(&out.stderr));
-    out.stdout
-}
-
 struct Outcome {
+    ok: bool,           // exit status 0
+    signalled: bool,    // killed by a signal
     status: String,
     stderr: String,
 }
 
-/// `sh -c '<prelude>; ulimit -f <blocks>; exec luafmt --write <files>'`
-fn run_limited(luafmt: &Path, dir: &Path, prelude: &str, blocks: u32, files: &[&str]) -> Outcome {
-    let script = format!("{prelude}ulimit -f {blocks}; exec \"$0\" --write \"$@\"");
-    let out = Command::new("sh")
-        .arg("-c")
-        .arg(&script)
-        .arg(luafmt)
-        .args(files)
-        .current_dir(dir)
-        .stdin(Stdio::null())
-        .output()
-        .expect("sh");
-    Outcome { status: format!("{}", out.status), stderr: String::from_utf8_lossy(&out.stderr).trim().to_string() }
+/// one name whose content is inspected after the run
+struct Watch {
+    label: String,
+    path: PathBuf,
+    n: usize,
+    /// named on the command line (must end up formatted unless the run reports a failure); false: another name of a target
+    /// (second hard link) that only has to stay complete
+    is_target: bool,
+}
+
+struct Ctx {
+    luafmt: PathBuf,
+    scratch: PathBuf,
+    fmt_cache: HashMap<usize, Vec<u8>>,
+    found: usize,
+    skipped: usize,
+    mode: String,
+}
+
+impl Ctx {
+    fn wants(&self, name: &str) -> bool {
+        self.mode == "all" || name.starts_with(&self.mode)
+    }
+
+    /// the reference "complete formatted content": what the same binary prints without any limit
+    fn formatted(&mut self, n: usize) -> Vec<u8> {
+        if let Some(f) = self.fmt_cache.get(&n) {
+            return f.clone();
+        }
+        let p = self.scratch.join(format!("ref_{n}.lua"));
+        fs::write(&p, unformatted(n)).unwrap();
+        let out = Command::new(&self.luafmt).arg(&p).stdin(Stdio::null()).output().expect("run luafmt");
+        assert!(out.status.success(), "luafmt <file> failed: {}", String::from_utf8_lossy(&out.stderr));
+        assert!(out.stdout != unformatted(n).as_bytes(), "the generated input must need formatting");
+        let _ = fs::remove_file(&p);
+        self.fmt_cache.insert(n, out.stdout.clone());
+        out.stdout
+    }
+
+    fn dir(&self, name: &str) -> PathBuf {
+        let d = self.scratch.join(name);
+        fs::create_dir_all(&d).unwrap();
+        d
+    }
+
+    /// `sh -c '<prelude>[ulimit -f <blocks>;] exec <wrapper> luafmt --write <files>'` in `dir`
+    fn run(&self, dir: &Path, prelude: &str, blocks: Option<u32>, wrapper: &str, files: &[&str]) -> (String, Outcome) {
+        let limit = blocks.map(|b| format!("ulimit -f {b}; ")).unwrap_or_default();
+        let script = format!("{prelude}{limit}exec {wrapper}\"$0\" --write \"$@\"");
+        let out = Command::new("sh")
+            .arg("-c")
+            .arg(&script)
+            .arg(&self.luafmt)
+            .args(files)
+            .current_dir(dir)
+            .stdin(Stdio::null())
+            .output()
+            .expect("sh");
+        let shown = format!("{prelude}{limit}{wrapper}luafmt --write {}", files.join(" "));
+        (shown, outcome(out.status, &out.stderr))
+    }
+
+    /// checks (a) and (b) of the module comment
+    fn check(&mut self, name: &str, shown: &str, out: &Outcome, watches: &[Watch]) {
+        println!("[{name}] sh -c '{shown}'  ->  {}", out.status);
+        if !out.stderr.is_empty() {
+            println!("[{name}]   stderr: {}", out.stderr.replace('\n', " | "));
+        }
+        let mut unformatted_targets = Vec::new();
+        for w in watches {
+            let orig = unformatted(w.n).into_bytes();
+            let fmt = self.formatted(w.n);
+            let now = fs::read(&w.path).unwrap_or_default();
+            let (ok, what) = describe(&now, &orig, &fmt);
+            if ok {
+                println!("[{name}]   {}: {what}", w.label);
+            } else {
+                println!("FOUND [{name}] {} is left {what} after `{shown}` ({})", w.label, out.status);
+                self.found += 1;
+            }
+            if w.is_target && now != fmt {
+                unformatted_targets.push(w.label.clone());
+            }
+        }
+        if !unformatted_targets.is_empty() {
+            if out.ok {
+                println!(
+                    "FOUND [{name}] not reported: {} not formatted, yet `{shown}` ended with exit status 0",
+                    unformatted_targets.join(", ")
+                );
+                self.found += 1;
+            } else if !out.signalled && out.stderr.is_empty() {
+                println!(
+                    "FOUND [{name}] not reported: {} not formatted, `{shown}` ended with {} but printed no message",
+                    unformatted_targets.join(", "),
+                    out.status
+                );
+                self.found += 1;
+            }
+        }
+    }
+
+    fn note_extras(&self, name: &str, dir: &Path, expected: &[&str]) {
+        if let Ok(rd) = fs::read_dir(dir) {
+            for e in rd.flatten() {
+                let n = e.file_name().to_string_lossy().to_string();
+                if !expected.contains(&n.as_str()) {
+                    println!("[{name}]   note: extra entry left in the directory: {n}");
+                }
+            }
+        }
+    }
+
+    fn not_covered(&mut self, what: &str, why: &str) {
+        println!("NOT COVERED {what}: {why}");
+        self.skipped += 1;
+    }
+}
+
+fn outcome(status: std::process::ExitStatus, stderr: &[u8]) -> Outcome {
+    Outcome {
+        ok: status.success(),
+        signalled: status.signal().is_some(),
+        status: format!("{status}"),
+        stderr: String::from_utf8_lossy(stderr).trim().to_string(),
+    }
 }
 
 fn describe(now: &[u8], orig: &[u8], fmt: &[u8]) -> (bool, String) {
@@ -93,9 +215,241 @@ fn describe(now: &[u8], orig: &[u8], fmt: &[u8]) -> (bool, String) {
     } else if now.is_empty() {
         (false, format!("EMPTY (original {} bytes, formatted {} bytes)", orig.len(), fmt.len()))
     } else if fmt.starts_with(now) {
-        (false, format!("TRUNCATED: a {}-byte proper prefix of the {}-byte formatted text (original {} bytes is gone)", now.len(), fmt.len(), orig.len()))
+        (
+            false,
+            format!(
+                "TRUNCATED: a {}-byte proper prefix of the {}-byte formatted text (original {} bytes is gone)",
+                now.len(),
+                fmt.len(),
+                orig.len()
+            ),
+        )
     } else {
         (false, format!("NEITHER original nor formatted ({} bytes)", now.len()))
+    }
+}
+
+fn write_file(dir: &Path, rel: &str, n: usize) -> PathBuf {
+    let p = dir.join(rel);
+    if let Some(parent) = p.parent() {
+        fs::create_dir_all(parent).unwrap();
+    }
+    fs::write(&p, unformatted(n)).unwrap();
+    p
+}
+
+fn watch(dir: &Path, rel: &str, n: usize, is_target: bool) -> Watch {
+    Watch { label: rel.to_string(), path: dir.join(rel), n, is_target }
+}
+
+const XFSZ_IGNORED: &str = "trap '' XFSZ; ";
+
+/// plain files under a limit: (scenario name, SIGXFSZ ignored?, ulimit blocks, files)
+fn plain_scenarios() -> Vec<(&'static str, bool, Option<u32>, Vec<(&'static str, usize)>)> {
+    vec![
+        // nothing injected: everything must simply be formatted (checks the driver's own reference, too)
+        ("control", false, None, vec![("a_tiny.lua", TINY), ("b_small.lua", SMALL), ("c_big.lua", BIG)]),
+        ("sigxfsz-big", false, Some(8), vec![("big.lua", BIG)]),
+        ("sigxfsz-small", false, Some(1), vec![("small.lua", SMALL)]),
+        ("efbig-big", true, Some(8), vec![("big.lua", BIG)]),
+        ("efbig-small", true, Some(1), vec![("small.lua", SMALL)]),
+        ("zero-sigxfsz", false, Some(0), vec![("a_small.lua", SMALL), ("b_big.lua", BIG)]),
+        ("zero-efbig", true, Some(0), vec![("a_small.lua", SMALL), ("b_big.lua", BIG)]),
+        (
+            "mixed-efbig",
+            true,
+            Some(1),
+            vec![("a_tiny.lua", TINY), ("b_small.lua", SMALL), ("c_big.lua", BIG), ("d_tiny.lua", TINY), ("e_small.lua", SMALL)],
+        ),
+        (
+            "mixed-efbig-4k",
+            true,
+            Some(8),
+            vec![("a_tiny.lua", TINY), ("b_small.lua", SMALL), ("c_big.lua", BIG), ("d_tiny.lua", TINY), ("e_small.lua", SMALL)],
+        ),
+        ("mixed-sigxfsz", false, Some(1), vec![("a_tiny.lua", TINY), ("b_small.lua", SMALL), ("c_big.lua", BIG), ("d_tiny.lua", TINY)]),
+    ]
+}
+
+fn run_plain(cx: &mut Ctx) {
+    for (name, ignore, blocks, files) in plain_scenarios() {
+        if !cx.wants(name) {
+            continue;
+        }
+        let dir = cx.dir(name);
+        let mut watches = Vec::new();
+        for (f, n) in &files {
+            write_file(&dir, f, *n);
+            watches.push(watch(&dir, f, *n, true));
+        }
+        let names: Vec<&str> = files.iter().map(|(f, _)| *f).collect();
+        let (shown, out) = cx.run(&dir, if ignore { XFSZ_IGNORED } else { "" }, blocks, "", &names);
+        cx.check(name, &shown, &out, &watches);
+        cx.note_extras(name, &dir, &names);
+    }
+}
+
+/// a target that has a second hard link: BOTH names must hold complete content (the other name may keep the original)
+fn run_hardlink(cx: &mut Ctx) {
+    for (name, ignore, blocks, n) in [
+        ("hardlink-sigxfsz", false, Some(1), SMALL),
+        ("hardlink-efbig", true, Some(1), SMALL),
+        ("hardlink-efbig-big", true, Some(8), BIG),
+        ("hardlink-control", false, None, SMALL),
+    ] {
+        if !cx.wants(name) {
+            continue;
+        }
+        let dir = cx.dir(name);
+        let a = write_file(&dir, "a.lua", n);
+        if let Err(e) = fs::hard_link(&a, dir.join("b_link.lua")) {
+            cx.not_covered("hard-linked target", &format!("ln a.lua b_link.lua failed: {e}"));
+            return;
+        }
+        let watches = vec![watch(&dir, "a.lua", n, true), watch(&dir, "b_link.lua", n, false)];
+        let (shown, out) = cx.run(&dir, if ignore { XFSZ_IGNORED } else { "" }, blocks, "", &["a.lua"]);
+        cx.check(name, &format!("ln a.lua b_link.lua; {shown}"), &out, &watches);
+        cx.note_extras(name, &dir, &["a.lua", "b_link.lua"]);
+    }
+}
+
+/// a target named through a symlink: the file behind the link must stay complete, read through either name
+fn run_symlink(cx: &mut Ctx) {
+    for (name, ignore, blocks) in [("symlink-efbig", true, Some(1)), ("symlink-sigxfsz", false, Some(1)), ("symlink-control", false, None)] {
+        if !cx.wants(name) {
+            continue;
+        }
+        let dir = cx.dir(name);
+        write_file(&dir, "real/a.lua", SMALL);
+        if let Err(e) = std::os::unix::fs::symlink("real/a.lua", dir.join("link.lua")) {
+            cx.not_covered("symlinked target", &format!("ln -s failed: {e}"));
+            return;
+        }
+        let watches = vec![watch(&dir, "link.lua", SMALL, true), watch(&dir, "real/a.lua", SMALL, false)];
+        let (shown, out) = cx.run(&dir, if ignore { XFSZ_IGNORED } else { "" }, blocks, "", &["link.lua"]);
+        cx.check(name, &format!("ln -s real/a.lua link.lua; {shown}"), &out, &watches);
+        let still_link = fs::symlink_metadata(dir.join("link.lua")).map(|m| m.file_type().is_symlink()).unwrap_or(false);
+        if !still_link {
+            println!("[{name}]   note: link.lua is no longer a symlink");
+        }
+        cx.note_extras(name, &dir.join("real"), &["a.lua"]);
+    }
+}
+
+/// a target in a directory without write permission: no temp file can be created next to it; an error must be reported and the
+/// original must stay (or the file is rewritten completely). Root ignores permission bits: then luafmt runs as uid 65534.
+fn run_readonly_dir(cx: &mut Ctx) {
+    let name = "readonly-dir";
+    if !cx.wants(name) {
+        return;
+    }
+    let dir = cx.dir(name);
+    let ro = dir.join("ro");
+    fs::create_dir_all(&ro).unwrap();
+    write_file(&ro, "a.lua", SMALL);
+    let is_root = Command::new("id").arg("-u").output().map(|o| String::from_utf8_lossy(&o.stdout).trim() == "0").unwrap_or(false);
+    let mut wrapper = String::new();
+    if is_root {
+        // hand the file and the directory to uid 65534 and run luafmt as that user
+        let _ = std::os::unix::fs::chown(&ro, Some(65534), Some(65534));
+        let _ = std::os::unix::fs::chown(ro.join("a.lua"), Some(65534), Some(65534));
+        wrapper = "setpriv --reuid=65534 --regid=65534 --clear-groups ".to_string();
+    }
+    fs::set_permissions(&ro, fs::Permissions::from_mode(0o555)).unwrap();
+    // can the (unprivileged) user run the binary and read the file at all?
+    let probe = Command::new("sh")
+        .arg("-c")
+        .arg(format!("exec {wrapper}\"$0\" --check ro/a.lua"))
+        .arg(&cx.luafmt)
+        .current_dir(&dir)
+        .stdin(Stdio::null())
+        .output();
+    let usable = matches!(&probe, Ok(o) if o.status.code() == Some(1));
+    let writable = Command::new("sh")
+        .arg("-c")
+        .arg(format!("exec {wrapper}sh -c 'touch ro/probe 2>/dev/null'"))
+        .current_dir(&dir)
+        .status()
+        .map(|s| s.success())
+        .unwrap_or(true);
+    if !usable || writable {
+        let _ = fs::set_permissions(&ro, fs::Permissions::from_mode(0o755));
+        cx.not_covered(
+            "read-only directory",
+            if !usable { "luafmt cannot be run as uid 65534 here (setpriv missing or paths not accessible)" } else { "the directory stays writable for this user" },
+        );
+        return;
+    }
+    let watches = vec![watch(&dir, "ro/a.lua", SMALL, true)];
+    let (shown, out) = cx.run(&dir, "", None, &wrapper, &["ro/a.lua"]);
+    cx.check(name, &format!("chmod 555 ro; {shown}"), &out, &watches);
+    let _ = fs::set_permissions(&ro, fs::Permissions::from_mode(0o755));
+    cx.note_extras(name, &ro, &["a.lua"]);
+}
+
+/// a target that is itself a mount point (a file bind-mounted onto itself, as with `docker -v file:file`): rename(2) over it fails
+/// with EBUSY. The tmpfs holds exactly the original plus one copy of the formatted text: a fallback that copies the temp file over
+/// the target (truncate + copy) runs out of space after the truncation. Needs user + mount namespaces (`unshare -rm`).
+fn run_bind_mount(cx: &mut Ctx) {
+    let name = "bind-mounted";
+    if !cx.wants(name) {
+        return;
+    }
+    let dir = cx.dir(name);
+    write_file(&dir, "a.lua", BIND);
+    let orig_len = unformatted(BIND).len();
+    let fmt_len = cx.formatted(BIND).len();
+    let pages = |n: usize| n.div_ceil(4096);
+    if pages(fmt_len) <= pages(orig_len) {
+        cx.not_covered("bind-mounted target", "the formatted text does not need more pages than the original");
+        return;
+    }
+    let size_k = (pages(orig_len) + pages(fmt_len)) * 4;
+    let script = r#"
+        mkdir -p mnt || exit 90
+        mount -t tmpfs -o size=${1}k tmpfs mnt || exit 91
+        cp a.lua mnt/a.lua || exit 92
+        mount --bind mnt/a.lua mnt/a.lua || exit 93
+        "$0" --write mnt/a.lua 2> stderr.txt
+        echo $? > status.txt
+        cp mnt/a.lua result.lua
+        ls -A mnt > listing.txt
+        exit 0
+    "#;
+    let out = Command::new("unshare")
+        .args(["-rm", "sh", "-c", script])
+        .arg(&cx.luafmt)
+        .arg(size_k.to_string())
+        .current_dir(&dir)
+        .stdin(Stdio::null())
+        .output();
+    let status_txt = fs::read_to_string(dir.join("status.txt")).ok();
+    let (Ok(out), Some(status_txt)) = (out, status_txt) else {
+        cx.not_covered("bind-mounted target", "unshare(1) cannot be run here");
+        return;
+    };
+    if !out.status.success() {
+        cx.not_covered(
+            "bind-mounted target",
+            &format!("`unshare -rm` / mount is not permitted in this sandbox ({}; {})", out.status, String::from_utf8_lossy(&out.stderr).trim()),
+        );
+        return;
+    }
+    let code: i32 = status_txt.trim().parse().unwrap_or(-1);
+    let stderr = fs::read_to_string(dir.join("stderr.txt")).unwrap_or_default();
+    let oc = Outcome {
+        ok: code == 0,
+        signalled: code > 128,
+        status: format!("exit status: {code}"),
+        stderr: stderr.trim().to_string(),
+    };
+    let watches = vec![Watch { label: "mnt/a.lua".to_string(), path: dir.join("result.lua"), n: BIND, is_target: true }];
+    let shown = format!("unshare -rm: tmpfs size={size_k}k on mnt; mount --bind mnt/a.lua mnt/a.lua; luafmt --write mnt/a.lua");
+    cx.check(name, &shown, &oc, &watches);
+    if let Ok(l) = fs::read_to_string(dir.join("listing.txt")) {
+        for n in l.lines().filter(|n| *n != "a.lua") {
+            println!("[{name}]   note: extra entry left in the directory: {n}");
+        }
     }
 }
 
@@ -107,61 +461,24 @@ fn main() {
     let scratch = target_dir().join(format!("c39-scratch-{}", std::process::id()));
     let _ = fs::remove_dir_all(&scratch);
     fs::create_dir_all(&scratch).expect("scratch dir");
+    let mut cx = Ctx { luafmt, scratch: scratch.clone(), fmt_cache: HashMap::new(), found: 0, skipped: 0, mode };
 
-    // (name of the experiment, shell prelude, ulimit -f blocks, files: (name, number of statements))
-    // `ulimit -f` counts 512-byte blocks in POSIX sh and 1024-byte blocks in bash: 8 blocks is at most 8 KiB; the big file's
-    // formatted text is > 100 KiB, the small file's < 200 bytes.
-    let experiments: Vec<(&str, &str, u32, Vec<(&str, usize)>)> = vec![
-        ("sigxfsz", "", 8, vec![("big.lua", 6000)]),
-        ("efbig", "trap '' XFSZ; ", 8, vec![("big.lua", 6000)]),
-        ("zero", "", 0, vec![("big.lua", 6000)]),
-        ("two", "trap '' XFSZ; ", 8, vec![("a_small.lua", 5), ("b_big.lua", 6000)]),
-    ];
-    let mut found = 0;
-    for (name, prelude, blocks, files) in experiments {
-        if mode != "all" && mode != name {
-            continue;
-        }
-        let dir = scratch.join(name);
-        fs::create_dir_all(&dir).unwrap();
-        let mut expect = Vec::new();
-        for (f, n) in &files {
-            let p = dir.join(f);
-            fs::write(&p, unformatted(*n)).unwrap();
-            let orig = fs::read(&p).unwrap();
-            let fmt = formatted_by(&luafmt, &p);
-            assert!(orig != fmt, "the generated input must need formatting");
-            expect.push((p, orig, fmt));
-        }
-        let names: Vec<&str> = files.iter().map(|(f, _)| *f).collect();
-        let out = run_limited(&luafmt, &dir, prelude, blocks, &names);
-        println!("[{name}] sh -c '{prelude}ulimit -f {blocks}; luafmt --write {}'  ->  {}", names.join(" "), out.status);
-        if !out.stderr.is_empty() {
-            println!("[{name}]   stderr: {}", out.stderr.replace('\n', " | "));
-        }
-        for (p, orig, fmt) in &expect {
-            let now = fs::read(p).unwrap_or_default();
-            let (ok, what) = describe(&now, orig, fmt);
-            let file = p.file_name().unwrap().to_string_lossy();
-            if ok {
-                println!("[{name}]   {file}: {what}");
-            } else {
-                println!("FOUND [{name}] {file} is left {what} after `luafmt --write` under `{prelude}ulimit -f {blocks}` ({})", out.status);
-                found += 1;
-            }
-        }
-        // anything else in the directory (temp files left behind)?
-        for e in fs::read_dir(&dir).unwrap() {
-            let n = e.unwrap().file_name().to_string_lossy().to_string();
-            if !names.contains(&n.as_str()) {
-                println!("[{name}]   note: extra file left in the directory: {n}");
-            }
-        }
-    }
+    run_plain(&mut cx);
+    run_hardlink(&mut cx);
+    run_symlink(&mut cx);
+    run_readonly_dir(&mut cx);
+    run_bind_mount(&mut cx);
+
     let _ = fs::remove_dir_all(&scratch);
-    if found > 0 {
-        println!("C39 violated on the running binary: {found} target file(s) hold neither the original nor the formatted content");
+    if cx.found > 0 {
+        println!(
+            "C39 violated on the running binary: {} finding(s): a target holds neither its original nor its formatted content, or a failed rewrite was not reported",
+            cx.found
+        );
         exit(1);
     }
-    println!("OK every target file holds its complete original or its complete formatted content");
+    println!(
+        "OK every target holds its complete original or its complete formatted content and every failed rewrite was reported ({} scenario group(s) not covered)",
+        cx.skipped
+    );
 }
